@@ -65,6 +65,7 @@ fn main() {
         "claimleak" => mtree::cmd_claimleak(&args),
         "pdb-record" => record::cmd_record(&args),
         "pdb-record-mt" => record::cmd_record_mt(&args),
+        "btree-replay" => small::cmd_btree_replay(&args),
         other => {
             eprintln!("unknown command {other}");
             2
